@@ -343,6 +343,40 @@ Proof.
     (split; [exact Hv|split; [exact Hvpos|split; [reflexivity|]]]); lra.
 Qed.
 
+(** every sampler returns a suffix of its input stream *)
+Lemma normal_step_suffix (m sd : R) st t r t' :
+  normal_step (T:=R) m sd st t = Some (r, t') -> exists pre, t = pre ++ t'.
+Proof.
+  intros E. destruct st as [sp|]; cbn [normal_step] in E.
+  - unfold ret in E. inversion E; subst. exists []. reflexivity.
+  - unfold bind, draw in E. destruct t as [|a [|b t0]]; try discriminate.
+    unfold ret in E. inversion E; subst. exists [a; b]. reflexivity.
+Qed.
+Lemma gamma_inner_suffix : forall fuel cc st t r t',
+  gamma_inner (T:=R) fuel cc st t = Some (r, t') -> exists pre, t = pre ++ t'.
+Proof.
+  induction fuel as [|f IHf]; intros cc st t r t' E; [discriminate|].
+  cbn [gamma_inner] in E. unfold bind in E.
+  destruct (normal_step n0 n1 st t) as [[[z0 st0] t1]|] eqn:En; [|discriminate].
+  destruct (normal_step_suffix _ _ _ _ _ _ En) as [p1 ->].
+  destruct (nleb _ _).
+  - destruct (IHf _ _ _ _ _ E) as [p2 ->]. exists (p1 ++ p2). rewrite app_assoc. reflexivity.
+  - unfold ret in E. inversion E; subst. exists p1. reflexivity.
+Qed.
+Lemma gamma_outer_suffix : forall fuel dd cc st t x t',
+  gamma_outer (T:=R) fuel dd cc st t = Some (x, t') -> exists pre, t = pre ++ t'.
+Proof.
+  induction fuel as [|f IHf]; intros dd cc st t x t' E; [discriminate|].
+  cbn [gamma_outer] in E. unfold bind at 1 in E.
+  destruct (gamma_inner (S f) cc st t) as [[[[z0 v0] st0] t1]|] eqn:Ei; [|discriminate].
+  destruct (gamma_inner_suffix _ _ _ _ _ _ Ei) as [p1 ->].
+  unfold bind, draw in E. destruct t1 as [|u0 r0]; [discriminate|].
+  destruct (andb _ _).
+  - destruct (IHf _ _ _ _ _ _ E) as [p2 ->]. exists (p1 ++ u0 :: p2).
+    rewrite <- app_assoc. reflexivity.
+  - unfold ret in E. inversion E; subst. exists (p1 ++ [u0]). rewrite <- app_assoc. reflexivity.
+Qed.
+
 Lemma gamma_support alpha beta s x s' : 0 < alpha -> 0 < beta ->
   Forall (fun u => 0 < u < 1) s ->
   gamma (T:=R) alpha beta s = Some (x, s') -> 0 < x.
@@ -364,32 +398,7 @@ Proof.
     (* the boost draw w comes from the same stream: 0 < w *)
     assert (Hw : 0 < w).
     { assert (Hin : In w s).
-      { clear - Eo. (* s0 = w :: r is a suffix of s *)
-        assert (Hsuf : forall fuel dd cc st s x s', gamma_outer (T:=R) fuel dd cc st s = Some (x, s') ->
-                  exists pre, s = pre ++ s').
-        { assert (Hns : forall (m sd : R) st s r s', normal_step (T:=R) m sd st s = Some (r, s') -> exists pre, s = pre ++ s').
-          { intros m sd st s r s' E. destruct st as [sp|]; cbn [normal_step] in E.
-            - unfold ret in E. inversion E; subst. exists []. reflexivity.
-            - unfold bind, draw in E. destruct s as [|a [|b t]]; try discriminate.
-              unfold ret in E. inversion E; subst. exists [a; b]. reflexivity. }
-          assert (Hin : forall fuel cc st s r s', gamma_inner (T:=R) fuel cc st s = Some (r, s') -> exists pre, s = pre ++ s').
-          { induction fuel as [|f IHf]; intros cc st s r s' E; [discriminate|].
-            cbn [gamma_inner] in E. unfold bind in E.
-            destruct (normal_step n0 n1 st s) as [[[z0 st0] s1]|] eqn:En; [|discriminate].
-            destruct (Hns _ _ _ _ _ _ En) as [p1 ->].
-            destruct (nleb _ _).
-            - destruct (IHf _ _ _ _ _ E) as [p2 ->]. exists (p1 ++ p2). rewrite app_assoc. reflexivity.
-            - unfold ret in E. inversion E; subst. exists p1. reflexivity. }
-          induction fuel as [|f IHf]; intros dd cc st s x s' E; [discriminate|].
-          cbn [gamma_outer] in E. unfold bind at 1 in E.
-          destruct (gamma_inner (S f) cc st s) as [[[[z0 v0] st0] s1]|] eqn:Ei; [|discriminate].
-          destruct (Hin _ _ _ _ _ _ Ei) as [p1 ->].
-          unfold bind, draw in E. destruct s1 as [|u0 r0]; [discriminate|].
-          destruct (andb _ _).
-          - destruct (IHf _ _ _ _ _ _ E) as [p2 ->]. exists (p1 ++ u0 :: p2).
-            rewrite <- app_assoc. reflexivity.
-          - unfold ret in E. inversion E; subst. exists (p1 ++ [u0]). rewrite <- app_assoc. reflexivity. }
-        destruct (Hsuf _ _ _ _ _ _ _ Eo) as [pre ->]. apply in_or_app. right. left. reflexivity. }
+      { destruct (gamma_outer_suffix _ _ _ _ _ _ _ Eo) as [pre ->]. apply in_or_app. right. left. reflexivity. }
       rewrite Forall_forall in Hs. apply (Hs w Hin). }
     apply Rmult_lt_0_compat; [apply Rmult_lt_0_compat; assumption|].
     unfold Rpow. destruct (Req_EM_T (1 / alpha) 0) as [E0|_]; [lra|].
